@@ -25,8 +25,9 @@ def _locals_in_rvalue(r):
     return out
 
 
-def propagate(body, seeds):
-    """seeds: {local: {labels}}.  Returns {local: set(labels)} at fixpoint.
+def propagate(body, seeds, fixed=()):
+    """seeds: {local: {labels}}.  Returns {local: set(labels)} at fixpoint.  Locals in `fixed` keep exactly their seed labels (a slice
+    cut at a known position is *only* the part before/after it, whatever the labels of the vector it was cut from).
 
     Assignments and call results inherit the labels of everything they mention; a call also taints every local whose
     reference (or the local itself, by place) is passed to it with the labels of the other arguments (methods such as
@@ -54,7 +55,7 @@ def propagate(body, seeds):
 
         def add(l, labels):
             nonlocal changed
-            if not labels:
+            if not labels or l in fixed:
                 return
             cur = taint.setdefault(l, set())
             if not labels <= cur:
